@@ -2,7 +2,6 @@ package rules
 
 import (
 	"fmt"
-	"go/token"
 	"strings"
 
 	"golang.org/x/tools/go/ssa"
@@ -11,142 +10,205 @@ import (
 )
 
 // ---------------------------------------------------------------------------------------------
-// UDP anchors
+// UDP anchors (found by role) and region-based rules
 // ---------------------------------------------------------------------------------------------
 
 type udpAnchors struct {
-	dg        *ssa.Function // per-datagram function
-	loopFn    *ssa.Function // function containing the receive loop (root of dg)
-	readFrom  *ssa.Call     // clientConn.ReadFrom in the loop
-	get       *ssa.Call
-	searchC   []*ssa.Call // calls to trial-decryption search functions
-	unpackC   []*ssa.Call // direct Unpack calls in dg
-	validate  *ssa.Function
-	valCalls  []*ssa.Call
-	gAuth     eng.EdgeSet
-	gVal      eng.EdgeSet
-	sends     []*ssa.Call // natconn.WriteTo
-	listens   []*ssa.Call
-	adds      []*ssa.Call
-	absent    eng.EdgeSet // Get(...) == nil edges
-	present   eng.EdgeSet
-	replyFns  []*ssa.Function
-	validator string // field of packetHandler holding the IP validator
+	m        *udpModel
+	dg       *ssa.Function // per-datagram function (region root)
+	loopFn   *ssa.Function // function containing the receive loop
+	R        *Region       // dg + helpers
+	readFrom *ssa.Call     // listener ReadFrom in the loop
+	gets     []*ssa.Call
+	unpacks  []*ssa.Call // every shadowsocks.Unpack call in the region (search loops included)
+	direct   []*ssa.Call // Unpack calls outside search loops (existing-association path)
+	searchC  []*ssa.Call // calls to trial-decryption search functions
+	sends    []*ssa.Call
+	listens  []*ssa.Call
+	adds     []*ssa.Call
+	vals     []*ssa.Call // IP validator calls
+	resolves []*ssa.Call
+	splits   []*ssa.Call
+	gAuth    *Guard
+	gVal     *Guard
+	gSplit   *Guard
+	gAbsent  *Guard
+	gPresent *Guard
+	replyFns []*ssa.Function
 }
 
 func findUDP(c *Ctx, rule string) *udpAnchors {
 	p := c.P
-	a := &udpAnchors{dg: datagramFn(c)}
-	if a.dg == nil {
-		c.Undecided(rule, "anchor:datagram-function", "-", "no function calls both natmap.Get and natconn.WriteTo")
+	m := getUDPModel(c, rule)
+	if m == nil {
 		return nil
 	}
-	a.loopFn = eng.Root(a.dg)
-	for _, cl := range eng.Calls(a.loopFn) {
-		if call, ok := cl.(*ssa.Call); ok && eng.CalleeName(&call.Call) == "(net.PacketConn).ReadFrom" {
-			a.readFrom = call
+	a := &udpAnchors{m: m, replyFns: m.replyFns}
+	// the receive loop: a function of package service with a ReadFrom on a net.PacketConn inside a loop, from which Get is reachable
+	memo := map[*ssa.Function]int{}
+	isGet := func(ins ssa.Instruction) bool {
+		cl, ok := ins.(ssa.CallInstruction)
+		return ok && callTo(c, cl, m.get)
+	}
+	for _, f := range p.FnsIn("service") {
+		if f.Parent() != nil || p.IsTestSupport(f) {
+			continue
+		}
+		for _, cl := range eng.Calls(f) {
+			call, ok := cl.(*ssa.Call)
+			if !ok || eng.CalleeName(&call.Call) != "(net.PacketConn).ReadFrom" || eng.InnermostLoop(eng.Loops(f), call.Block()) == nil {
+				continue
+			}
+			if reaches(c, f, isGet, memo) || familyHas(f, isGet) {
+				a.loopFn, a.readFrom = f, call
+			}
 		}
 	}
+	if a.loopFn == nil {
+		c.Undecided(rule, "anchor:datagram-loop", "-", "no receive loop over a net.PacketConn from which the association table lookup is reachable")
+		return nil
+	}
+	// per-datagram root: the callee invoked in the loop (closure or function) whose region reaches Get; else the loop function itself
+	a.dg = a.loopFn
+	for _, cl := range eng.Calls(a.loopFn) {
+		if _, isGo := cl.(*ssa.Go); isGo {
+			continue
+		}
+		for _, h := range c.L().SyncCallees(cl) {
+			if eng.PkgPathOf(h) == eng.Mod+"/service" && !m.stopFn(c)(h) && (bodyHas(h, isGet) || reaches(c, h, isGet, map[*ssa.Function]int{})) {
+				a.dg = h
+			}
+		}
+	}
+	a.R = c.NewRegion(a.dg, 4, m.stopFn(c))
 	searchFns := map[*ssa.Function]bool{}
 	for _, sl := range findSearchLoops(c) {
 		searchFns[sl.fn] = true
 	}
-	// validator method: repo function that calls net.ResolveUDPAddr and a dynamic func(net.IP) error loaded from a field
-	for _, f := range p.FnsIn("service") {
-		res, dyn := false, false
-		for _, cl := range eng.Calls(f) {
-			n := eng.CalleeName(cl.Common())
-			if n == "net.ResolveUDPAddr" {
-				res = true
-			}
-			if isIPValidatorCall(cl) {
-				dyn = true
-				for _, o := range p.Origins(cl.Common().Value, eng.Plain) {
-					if _, fl, _, ok := eng.FieldLoad(o); ok {
-						a.validator = fl
-					}
-				}
-			}
-		}
-		if res && dyn {
-			a.validate = f
-		}
-	}
-	if a.validate == nil {
-		c.Undecided(rule, "anchor:packet-validator", "-", "no function resolves the destination and applies the target IP validator")
-		return nil
-	}
-	for _, cl := range eng.Calls(a.dg) {
+	for _, cl := range a.R.Calls() {
 		call, ok := cl.(*ssa.Call)
 		if !ok {
 			continue
 		}
-		switch eng.CalleeName(&call.Call) {
-		case "(*service.natmap).Get":
-			a.get = call
-		case "sdk/shadowsocks.Unpack":
-			a.unpackC = append(a.unpackC, call)
-		case "(*service.natconn).WriteTo":
+		n := eng.CalleeName(&call.Call)
+		switch {
+		case callTo(c, call, m.get):
+			a.gets = append(a.gets, call)
+		case n == "sdk/shadowsocks.Unpack":
+			a.unpacks = append(a.unpacks, call)
+			if !searchFns[call.Parent()] {
+				a.direct = append(a.direct, call)
+			}
+		case callTo(c, call, m.connWrite):
 			a.sends = append(a.sends, call)
-		case "net.ListenPacket", "net.ListenUDP":
+		case n == "net.ListenPacket" || n == "net.ListenUDP":
 			a.listens = append(a.listens, call)
-		case "(*service.natmap).Add":
+		case callTo(c, call, m.add):
 			a.adds = append(a.adds, call)
+		case isIPValidatorCall(call):
+			a.vals = append(a.vals, call)
+		case n == "net.ResolveUDPAddr":
+			a.resolves = append(a.resolves, call)
+		case n == "ss2/socks.SplitAddr":
+			a.splits = append(a.splits, call)
 		}
 		for _, f := range repoCallees(c, call) {
 			if searchFns[f] {
 				a.searchC = append(a.searchC, call)
 			}
-			if f == a.validate {
-				a.valCalls = append(a.valCalls, call)
-			}
 		}
 	}
-	a.gAuth = eng.EdgeSet{}
-	for _, sc := range a.searchC {
-		s, _ := p.SuccessEdges(a.dg, []ssa.CallInstruction{sc}, sc.Call.Signature().Results().Len()-1)
-		a.gAuth = eng.Union(a.gAuth, s)
+	a.gAuth = c.CallGuard(func(call *ssa.Call) (int, bool) {
+		return 1, eng.CalleeName(&call.Call) == "sdk/shadowsocks.Unpack"
+	})
+	a.gVal = c.CallGuard(func(call *ssa.Call) (int, bool) { return 0, isIPValidatorCall(call) })
+	a.gSplit = c.NewGuard(func(fn *ssa.Function) eng.EdgeSet {
+		_, nn := p.NilEdges(fn, func(v ssa.Value) bool {
+			cc, ok := v.(*ssa.Call)
+			return ok && eng.CalleeName(&cc.Call) == "ss2/socks.SplitAddr"
+		})
+		return nn
+	})
+	isGetRes := func(v ssa.Value) bool {
+		cc, ok := v.(*ssa.Call)
+		return ok && callTo(c, cc, m.get)
 	}
-	for _, uc := range a.unpackC {
-		s, _ := p.SuccessEdges(a.dg, []ssa.CallInstruction{uc}, 1)
-		a.gAuth = eng.Union(a.gAuth, s)
-	}
-	a.gVal = eng.EdgeSet{}
-	for _, vc := range a.valCalls {
-		s, _ := p.SuccessEdges(a.dg, []ssa.CallInstruction{vc}, vc.Call.Signature().Results().Len()-1)
-		a.gVal = eng.Union(a.gVal, s)
-	}
-	if a.get != nil {
-		a.absent, a.present = p.NilEdges(a.dg, func(v ssa.Value) bool { return v == ssa.Value(a.get) })
-		if len(a.absent) == 0 {
-			// through the targetConn cell
-			for _, b := range a.dg.Blocks {
-				iff, ok := b.Instrs[len(b.Instrs)-1].(*ssa.If)
-				if !ok {
-					continue
-				}
-				x, trueNonNil, ok := eng.NilCompare(iff.Cond)
-				if ok && p.ReachingStore(x, iff) == ssa.Value(a.get) {
-					nn, n := eng.Edge{From: b, To: b.Succs[0]}, eng.Edge{From: b, To: b.Succs[1]}
-					if !trueNonNil {
-						nn, n = n, nn
-					}
-					a.present[nn] = true
-					a.absent[n] = true
+	getEdges := func(fn *ssa.Function, wantNil bool) eng.EdgeSet {
+		out := eng.EdgeSet{}
+		for _, b := range fn.Blocks {
+			iff, ok := b.Instrs[len(b.Instrs)-1].(*ssa.If)
+			if !ok {
+				continue
+			}
+			x, trueNonNil, ok := eng.NilCompare(iff.Cond)
+			if !ok {
+				continue
+			}
+			hit := isGetRes(x) || isGetRes(p.Resolve(x))
+			if !hit {
+				if rs := p.ReachingStore(x, iff); rs != nil && isGetRes(rs) {
+					hit = true
 				}
 			}
+			if !hit {
+				continue
+			}
+			nn, n := eng.Edge{From: b, To: b.Succs[0]}, eng.Edge{From: b, To: b.Succs[1]}
+			if !trueNonNil {
+				nn, n = n, nn
+			}
+			if wantNil {
+				out[n] = true
+			} else {
+				out[nn] = true
+			}
 		}
+		return out
 	}
-	a.replyFns = replyLoopFns(c)
+	a.gAbsent = c.NewGuard(func(fn *ssa.Function) eng.EdgeSet { return getEdges(fn, true) })
+	a.gPresent = c.NewGuard(func(fn *ssa.Function) eng.EdgeSet { return getEdges(fn, false) })
 	return a
 }
+
+func familyHas(f *ssa.Function, q func(ssa.Instruction) bool) bool {
+	for _, g := range eng.Family(f) {
+		if bodyHas(g, q) {
+			return true
+		}
+	}
+	return false
+}
+
+func inCalls(v ssa.Value, calls []*ssa.Call, idx int) bool {
+	cc, i, ok := eng.AsResult(v)
+	if !ok || (idx >= 0 && i != idx) {
+		return false
+	}
+	for _, x := range calls {
+		if x == cc {
+			return true
+		}
+	}
+	return false
+}
+
+var stringOf = func(cc *ssa.Call) []ssa.Value {
+	if eng.MethodName(&cc.Call) == "String" {
+		return []ssa.Value{eng.Receiver(&cc.Call)}
+	}
+	return nil
+}
+
+var deepF = eng.OriginOpts{ThroughConvert: true, Interproc: true}
 
 // C03.SENDGUARD (shared with C04.CREATE, C05.UDP)
 func ruleSendGuard(c *Ctx, a *udpAnchors, rule string) {
 	p := c.P
-	c.Floor(rule, "authentication guards (key search + direct Unpack) in the datagram function", len(a.searchC)+len(a.unpackC), 2)
-	c.Floor(rule, "destination validation calls in the datagram function", len(a.valCalls), 2)
-	c.Floor(rule, "target sends in the datagram function", len(a.sends), 1)
+	c.Floor(rule, "decryption calls (shadowsocks.Unpack) in the datagram region", len(a.unpacks), 2)
+	c.Floor(rule, "IP validator calls in the datagram region", len(a.vals), 1)
+	c.Floor(rule, "target sends in the datagram region", len(a.sends), 1)
+	c.Floor(rule, "socket creations in the datagram region", len(a.listens), 1)
+	c.Floor(rule, "association creations in the datagram region", len(a.adds), 1)
 	type tgt struct {
 		call *ssa.Call
 		what string
@@ -162,215 +224,202 @@ func ruleSendGuard(c *Ctx, a *udpAnchors, rule string) {
 		ts = append(ts, tgt{s, "create-association"})
 	}
 	for i, t := range ts {
-		key := fmt.Sprintf("%s:%s#%d", short(a.dg), t.what, i)
-		c.CheckAt(rule, key+":after-authentication", t.call, len(a.gAuth) > 0 && eng.Cut(a.dg, t.call.Block(), a.gAuth), "reachable on a path on which the datagram was not successfully decrypted under a key (no success edge of the key search / Unpack is crossed)")
-		c.CheckAt(rule, key+":after-destination-validation", t.call, len(a.gVal) > 0 && eng.Cut(a.dg, t.call.Block(), a.gVal), "reachable on a path on which the destination of this datagram was not validated (e.g. only the first datagram of an association is checked)")
+		key := fmt.Sprintf("%s#%d", t.what, i)
+		c.CheckAt(rule, key+":after-authentication", t.call, a.R.CutDeep(t.call, a.gAuth), "reachable on a path on which the datagram was not successfully decrypted under a key (no success edge of shadowsocks.Unpack is crossed on the way from the start of datagram handling)")
+		c.CheckAt(rule, key+":after-destination-validation", t.call, a.R.CutDeep(t.call, a.gVal), "reachable on a path on which the destination of this datagram was not validated by the IP validator (e.g. only the first datagram of an association is checked, or a cached verdict is used)")
+		c.CheckAt(rule, key+":after-address-header-parsed", t.call, a.R.CutDeep(t.call, a.gSplit), "reachable on a path on which the SOCKS address header of this datagram did not parse")
 	}
-	isVal := func(call *ssa.Call) bool {
-		for _, v := range a.valCalls {
-			if v == call {
-				return true
-			}
-		}
-		return false
-	}
+	isRes := func(x ssa.Value) bool { return inCalls(x, a.resolves, 0) }
 	for i, s := range a.sends {
-		key := fmt.Sprintf("%s:send-to-target#%d", short(a.dg), i)
+		key := fmt.Sprintf("send-to-target#%d", i)
 		payload, addr := eng.Arg(&s.Call, 0), eng.Arg(&s.Call, 1)
-		okP, badP := p.AllFrom(payload, eng.OriginOpts{ThroughConvert: true}, func(v ssa.Value) bool { cc, idx, ok := eng.AsResult(v); return ok && idx == 0 && isVal(cc) })
-		okA, badA := p.AllFrom(addr, eng.OriginOpts{ThroughConvert: true}, func(v ssa.Value) bool { cc, idx, ok := eng.AsResult(v); return ok && idx == 1 && isVal(cc) })
-		c.CheckAt(rule, key+":payload-from-validation", s, okP, "the payload sent to the target is not the payload returned by the destination validation of this datagram: "+valsStr(p, badP))
-		c.CheckAt(rule, key+":address-from-validation", s, okA, "the address the datagram is sent to is not the address that was validated (e.g. re-resolved or cached): "+valsStr(p, badA))
-	}
-	// what is validated is the plaintext of this datagram
-	for i, v := range a.valCalls {
-		arg := eng.Arg(&v.Call, 0)
-		ok, bad := p.AllFrom(arg, eng.OriginOpts{ThroughConvert: true}, func(x ssa.Value) bool {
-			cc, idx, ok := eng.AsResult(x)
-			if !ok || idx != 0 {
+		// address: exactly a ResolveUDPAddr result, the same one whose IP the validator saw
+		okA, badA := p.AllFrom(addr, deepF, isRes)
+		c.CheckAt(rule, key+":address-is-the-resolved-address", s, okA, "the address the datagram is sent to is not (only) the result of resolving this datagram's destination (e.g. cached or re-derived): "+valsStr(p, badA))
+		ro := p.Origins(addr, eng.OriginOpts{ThroughConvert: true, Interproc: true, Stop: isRes})
+		for _, v := range a.vals {
+			vo := p.Origins(v.Call.Args[0], eng.OriginOpts{ThroughConvert: true, ThroughFieldLoad: true, Interproc: true, Stop: isRes})
+			sameRes := len(vo) > 0
+			for _, x := range vo {
+				found := false
+				for _, y := range ro {
+					if x == y {
+						found = true
+					}
+				}
+				if !found {
+					sameRes = false
+				}
+			}
+			okIP, _ := p.AllFrom(v.Call.Args[0], deepF, func(x ssa.Value) bool {
+				t, fl, base, ok := eng.FieldLoad(x)
+				if !ok || t != "net.UDPAddr" || fl != "IP" {
+					return false
+				}
+				g, _ := p.AllFrom(base, deepF, isRes)
+				return g
+			})
+			c.CheckAt(rule, key+":validator-saw-the-address-sent-to", v, okIP && sameRes, "the IP validator is not applied to the IP of the very address the datagram is then sent to (the resolved destination)")
+		}
+		// payload: exactly data[len(SplitAddr(data)):] of this datagram's plaintext
+		isPayloadSlice := func(v ssa.Value) bool {
+			sl, ok := v.(*ssa.Slice)
+			if !ok || sl.High != nil || sl.Low == nil {
 				return false
 			}
-			for _, s := range a.searchC {
-				if s == cc {
-					return true
+			var sp *ssa.Call
+			okLow, _ := p.AllFrom(sl.Low, deepF, func(x ssa.Value) bool {
+				lc, ok := x.(*ssa.Call)
+				if !ok {
+					return false
 				}
-			}
-			for _, u := range a.unpackC {
-				if u == cc {
-					return true
+				bi, ok := lc.Call.Value.(*ssa.Builtin)
+				if !ok || bi.Name() != "len" {
+					return false
 				}
+				for _, o := range p.Origins(lc.Call.Args[0], deepF) {
+					if cc, isC := o.(*ssa.Call); isC && eng.CalleeName(&cc.Call) == "ss2/socks.SplitAddr" {
+						sp = cc
+						return true
+					}
+				}
+				return false
+			})
+			if !okLow || sp == nil {
+				return false
 			}
-			return false
-		})
-		c.CheckAt(rule, fmt.Sprintf("%s:validate#%d:plaintext-of-this-datagram", short(a.dg), i), v, ok, "the validated bytes are not the decryption result of this datagram: "+valsStr(p, bad))
-	}
-	ruleValidatorInternals(c, a, rule)
-}
-
-// inside the validator method
-func ruleValidatorInternals(c *Ctx, a *udpAnchors, rule string) {
-	p := c.P
-	f := a.validate
-	key := short(f)
-	var resolve, valCall, split *ssa.Call
-	for _, cl := range eng.Calls(f) {
-		call, ok := cl.(*ssa.Call)
-		if !ok {
-			continue
-		}
-		n := eng.CalleeName(&call.Call)
-		switch {
-		case n == "net.ResolveUDPAddr":
-			resolve = call
-		case n == "ss2/socks.SplitAddr":
-			split = call
-		case isIPValidatorCall(call):
-			valCall = call
-		}
-	}
-	if resolve == nil || valCall == nil {
-		c.Undecided(rule, key+":anchors", p.Pos(f.Pos()), "validator method lost its resolve / validator calls")
-		return
-	}
-	// validator applied to the IP field of the resolved address
-	okIP, _ := p.AllFrom(valCall.Call.Args[0], eng.Plain, func(v ssa.Value) bool {
-		t, fl, base, ok := eng.FieldLoad(v)
-		return ok && t == "net.UDPAddr" && fl == "IP" && eng.ResultOf(p.Resolve(base), resolve, 0)
-	})
-	c.CheckAt(rule, key+":validator-sees-resolved-ip", valCall, okIP, "the IP validator is not applied to the IP of the address that ResolveUDPAddr returned (the address actually used)")
-	succV, _ := p.SuccessEdges(f, []ssa.CallInstruction{valCall}, 0)
-	succR, _ := p.SuccessEdges(f, []ssa.CallInstruction{resolve}, 1)
-	for i, r := range eng.Returns(f) {
-		if !eng.IsZeroValue(r.Results[len(r.Results)-1]) {
-			continue
-		}
-		k := fmt.Sprintf("%s:success-return#%d", key, i)
-		c.CheckAt(rule, k+":after-validator", r, len(succV) > 0 && eng.Cut(f, r.Block(), succV), "the validator method can report success on a path on which the IP validator was not consulted or failed (e.g. a cache hit that skips it)")
-		c.CheckAt(rule, k+":after-resolve", r, len(succR) > 0 && eng.Cut(f, r.Block(), succR), "success without a successful resolution of the destination")
-		okAddr, _ := p.AllFrom(r.Results[1], eng.Plain, func(v ssa.Value) bool { return eng.ResultOf(v, resolve, 0) })
-		c.CheckAt(rule, k+":returns-the-validated-address", r, okAddr, "the address returned is not the one that was resolved and validated")
-		// payload = textData[len(addr):] with addr = SplitAddr(textData), non-nil
-		if split != nil {
-			s, ok := p.Resolve(r.Results[0]).(*ssa.Slice)
-			good := false
-			if ok && s.High == nil && p.Resolve(s.X) == p.Resolve(split.Call.Args[0]) {
-				if lc, ok := p.Resolve(s.Low).(*ssa.Call); ok {
-					if bi, ok := lc.Call.Value.(*ssa.Builtin); ok && bi.Name() == "len" && p.Resolve(lc.Call.Args[0]) == ssa.Value(split) {
-						good = true
+			// the slice is taken of the same data that was parsed
+			xo, so := p.Origins(sl.X, deepF), p.Origins(sp.Call.Args[0], deepF)
+			for _, x := range xo {
+				for _, y := range so {
+					if x == y {
+						return true
 					}
 				}
 			}
-			c.CheckAt(rule, k+":payload-is-data-after-address", r, good, "the payload returned is not textData[len(SplitAddr(textData)):]: the target would receive something other than exactly the bytes after the address header")
-			_, nn := p.NilEdges(f, func(v ssa.Value) bool { return v == ssa.Value(split) })
-			c.CheckAt(rule, k+":address-header-parsed", r, len(nn) > 0 && eng.Cut(f, r.Block(), nn), "success although the address header did not parse")
+			return false
 		}
+		okP, badP := p.AllFrom(payload, deepF, isPayloadSlice)
+		c.CheckAt(rule, key+":payload-is-the-data-after-the-address-header", s, okP, "the payload sent to the target is not plaintext[len(SplitAddr(plaintext)):] of this datagram: "+valsStr(p, badP))
 	}
-	if split == nil {
-		c.Undecided(rule, key+":SplitAddr", p.Pos(f.Pos()), "validator method does not parse the address header with socks.SplitAddr")
-	} else {
-		okArg, _ := p.AllFrom(split.Call.Args[0], eng.Plain, func(v ssa.Value) bool { return eng.IsParam(v, f, 1) })
-		c.CheckAt(rule, key+":parses-the-plaintext-parameter", split, okArg, "the address header is not parsed from the plaintext parameter")
-		okRes := p.AnyFrom(resolve.Call.Args[1], eng.OriginOpts{ThroughCalls: func(cc *ssa.Call) []ssa.Value {
-			if eng.MethodName(&cc.Call) == "String" {
-				return []ssa.Value{eng.Receiver(&cc.Call)}
-			}
-			return nil
-		}}, func(v ssa.Value) bool { return v == ssa.Value(split) })
-		c.CheckAt(rule, key+":resolves-the-parsed-address", resolve, okRes, "the address resolved is not the address parsed from this datagram")
+	// the plaintext parsed and the address resolved are this datagram's
+	for i, sp := range a.splits {
+		ok, bad := p.AllFrom(sp.Call.Args[0], eng.Deep, func(v ssa.Value) bool { return inCalls(v, a.unpacks, 0) })
+		c.CheckAt(rule, fmt.Sprintf("parse#%d:plaintext-of-this-datagram", i), sp, ok, "the address header is not parsed from the decryption result of this datagram: "+valsStr(p, bad))
 	}
+	for i, rs := range a.resolves {
+		ok := p.AnyFrom(rs.Call.Args[1], eng.OriginOpts{ThroughConvert: true, Interproc: true, ThroughCalls: stringOf}, func(v ssa.Value) bool {
+			cc, isC := v.(*ssa.Call)
+			return isC && eng.CalleeName(&cc.Call) == "ss2/socks.SplitAddr"
+		})
+		c.CheckAt(rule, fmt.Sprintf("resolve#%d:resolves-the-parsed-address", i), rs, ok, "the address resolved is not the address parsed from this datagram")
+	}
+	c.Floor(rule, "address-header parses in the datagram region", len(a.splits), 1)
+	c.Floor(rule, "destination resolutions in the datagram region", len(a.resolves), 1)
 }
 
 // C03.KEYBIND
 func ruleKeyBind(c *Ctx, a *udpAnchors) {
 	p := c.P
-	// existing-association Unpack takes the key bound to the entry returned by Get
-	for i, u := range a.unpackC {
-		ok, bad := p.AllFrom(u.Call.Args[2], eng.Plain, func(v ssa.Value) bool {
-			t, fl, base, isF := eng.FieldLoad(v)
-			if !isF || t != natconnT || fl != "cryptoKey" {
-				return false
-			}
-			if rs := p.ReachingStore(base, u); rs != nil {
-				return a.get != nil && rs == ssa.Value(a.get)
-			}
-			g, _ := p.AllFrom(base, eng.Plain, func(b ssa.Value) bool { return a.get != nil && b == ssa.Value(a.get) })
-			return g
-		})
-		c.CheckAt("KEYBIND", fmt.Sprintf("%s:unpack#%d:key-of-the-association", short(a.dg), i), u, ok, "a datagram on an existing association is decrypted with a key other than the one bound to that association: "+valsStr(p, bad))
-		c.CheckAt("KEYBIND", fmt.Sprintf("%s:unpack#%d:only-when-association-exists", short(a.dg), i), u, len(a.present) > 0 && eng.Cut(a.dg, u.Block(), a.present), "the association key is used on a path where no association was found")
+	m := a.m
+	isGetVal := func(b ssa.Value) bool {
+		cc, ok := b.(*ssa.Call)
+		return ok && callTo(c, cc, m.get)
 	}
-	// cryptoKey immutable
+	isKeyOfGet := func(v ssa.Value) bool {
+		t, fl, base, isF := eng.FieldLoad(v)
+		if !isF || t != m.connT || fl != m.keyField {
+			return false
+		}
+		if rs := p.ReachingStore(base, v.(ssa.Instruction)); rs != nil {
+			g, _ := p.AllFrom(rs, deepF, isGetVal)
+			return g
+		}
+		g, _ := p.AllFrom(base, deepF, isGetVal)
+		return g
+	}
+	for i, u := range a.direct {
+		ok, bad := p.AllFrom(u.Call.Args[2], deepF, isKeyOfGet)
+		c.CheckAt("KEYBIND", fmt.Sprintf("unpack#%d:key-of-the-association", i), u, ok, "a datagram on an existing association is decrypted with a key other than the one bound to that association: "+valsStr(p, bad))
+		c.CheckAt("KEYBIND", fmt.Sprintf("unpack#%d:only-when-association-exists", i), u, a.R.CutDeep(u, a.gPresent), "the association key is used on a path where no association was found")
+	}
+	c.Floor("KEYBIND", "decryptions with an association's key", len(a.direct), 1)
 	nst := 0
-	for _, st := range p.FieldStores(natconnT, "cryptoKey") {
+	for _, st := range p.FieldStores(m.connT, m.keyField) {
 		if !st.Fresh {
 			nst++
-			c.CheckAt("KEYBIND", "store-cryptoKey:"+short(st.Fn), st.Ins, false, "the key bound to an association is changed after creation")
+			c.CheckAt("KEYBIND", "store-association-key:"+short(st.Fn), st.Ins, false, "the key bound to an association is changed after creation")
 		}
 	}
 	if nst == 0 {
-		c.Check("KEYBIND", "association-key-immutable", "-", true, "natconn.cryptoKey has no store outside construction||")
+		c.Check("KEYBIND", "association-key-immutable", "-", true, m.connT+"."+m.keyField+" has no store outside construction||")
 	}
-	// Add receives the key and id of this datagram's search
 	for i, ad := range a.adds {
-		okK, _ := p.AllFrom(ad.Call.Args[3], eng.Plain, func(v ssa.Value) bool {
-			cc, idx, ok := eng.AsResult(v)
-			if !ok || idx != 2 {
-				return false
-			}
-			for _, s := range a.searchC {
-				if s == cc {
-					return true
-				}
-			}
-			return false
-		})
-		c.CheckAt("KEYBIND", fmt.Sprintf("%s:add#%d:binds-the-matching-key", short(a.dg), i), ad, okK, "the association is created with a key other than the one that decrypted its first datagram")
-	}
-	// set stores the key it was given; the reply is packed with the association's key
-	if add := p.Fn("(*service.natmap).Add"); add != nil {
-		for _, cl := range eng.Calls(add) {
-			if call, ok := cl.(*ssa.Call); ok && eng.CalleeName(&call.Call) == "(*service.natmap).set" {
-				okS, _ := p.AllFrom(call.Call.Args[3], eng.Plain, func(v ssa.Value) bool { return eng.IsParam(v, add, 3) })
-				c.CheckAt("KEYBIND", short(add)+":entry-gets-the-key-parameter", call, okS, "the entry is created with a key other than Add's key parameter")
+		var keyArg ssa.Value
+		for _, ar := range ad.Call.Args {
+			if eng.Short(ar.Type().String()) == "*sdk/shadowsocks.EncryptionKey" {
+				keyArg = ar
 			}
 		}
+		okK := false
+		if keyArg != nil {
+			okK, _ = p.AllFrom(keyArg, deepF, func(v ssa.Value) bool {
+				if _, fl, _, ok := eng.FieldLoad(v); ok && fl == "CryptoKey" {
+					return true
+				}
+				return inCalls(v, a.searchC, -1)
+			})
+		}
+		c.CheckAt("KEYBIND", fmt.Sprintf("add#%d:binds-the-matching-key", i), ad, okK, "the association is created with a key other than the one that decrypted its first datagram")
+	}
+	for _, st := range p.FieldStores(m.connT, m.keyField) {
+		if !st.Fresh || st.Val == nil {
+			continue
+		}
+		ok, _ := p.AllFrom(st.Val, deepF, func(v ssa.Value) bool {
+			pa, isP := v.(*ssa.Parameter)
+			return isP && pa.Parent() == m.add
+		})
+		c.CheckAt("KEYBIND", "entry-gets-Add's-key:"+short(st.Fn), st.Ins, ok, "the entry is created with a key other than Add's key parameter")
 	}
 	n := 0
-	for _, rf := range a.replyFns {
-		for _, g := range eng.Family(rf) {
-			for _, cl := range eng.Calls(g) {
-				call, ok := cl.(*ssa.Call)
-				if !ok || eng.CalleeName(&call.Call) != "sdk/shadowsocks.Pack" {
-					continue
+	for _, rs := range findReplySites(c, a) {
+		for _, call := range rs.packs {
+			n++
+			okK, bad := p.AllFrom(call.Call.Args[2], deepF, func(v ssa.Value) bool {
+				t, fl, base, isF := eng.FieldLoad(v)
+				if !isF || t != m.connT || fl != m.keyField {
+					return false
 				}
-				n++
-				okK, bad := p.AllFrom(call.Call.Args[2], eng.Plain, func(v ssa.Value) bool {
-					t, fl, base, isF := eng.FieldLoad(v)
-					if !isF || t != natconnT || fl != "cryptoKey" {
-						return false
-					}
-					_, isP := baseRoot(base).(*ssa.Parameter)
-					return isP
+				g2, _ := p.AllFrom(base, deepF, func(b ssa.Value) bool {
+					pa, isP := baseRoot(b).(*ssa.Parameter)
+					return isP && eng.Root(pa.Parent()) == rs.rf
 				})
-				c.CheckAt("KEYBIND", short(g)+":reply-packed-with-association-key", call, okK, "replies are encrypted with a key other than the association's own: "+valsStr(p, bad))
-			}
+				return g2
+			})
+			c.CheckAt("KEYBIND", short(call.Parent())+":reply-packed-with-association-key", call, okK, "replies are encrypted with a key other than the association's own: "+valsStr(p, bad))
 		}
 	}
 	c.Floor("KEYBIND", "Pack calls in reply loops", n, 1)
 }
 
-// allocatedIn: every origin of v (through slices) is a make/alloc located in the function family of root.
+// allocatedIn: every origin of v (through slices, helpers) is a make / array allocation located in the function family of root or its helpers.
 func allocatedIn(c *Ctx, v ssa.Value, root *ssa.Function) (bool, []ssa.Value) {
 	fam := map[*ssa.Function]bool{}
 	for _, f := range eng.Family(root) {
 		fam[f] = true
 	}
-	return c.P.AllFrom(v, eng.Plain, func(x ssa.Value) bool {
+	for _, f := range regionFns(c, root, nil, 3) {
+		for _, g := range eng.Family(f) {
+			fam[g] = true
+		}
+	}
+	return c.P.AllFrom(v, eng.Deep, func(x ssa.Value) bool {
 		switch y := x.(type) {
 		case *ssa.MakeSlice:
 			return fam[y.Parent()]
 		case *ssa.Alloc:
-			return fam[y.Parent()]
+			return fam[y.Parent()] && strings.HasPrefix(y.Type().String(), "*[")
 		}
 		return false
 	})
@@ -379,15 +428,27 @@ func allocatedIn(c *Ctx, v ssa.Value, root *ssa.Function) (bool, []ssa.Value) {
 // C03.NOALIAS / OWNBUF
 func ruleBuffers(c *Ctx, a *udpAnchors, rule string) {
 	p := c.P
-	for i, sc := range a.searchC {
-		dst, src := sc.Call.Args[1], sc.Call.Args[2]
-		key := fmt.Sprintf("%s:key-search#%d", short(a.dg), i)
+	n := 0
+	sls := findSearchLoops(c)
+	for _, u := range a.unpacks {
+		inSearch := false
+		for _, sl := range sls {
+			if sl.unpack == u {
+				inSearch = true
+			}
+		}
+		if !inSearch {
+			continue
+		}
+		n++
+		dst, src := u.Call.Args[0], u.Call.Args[1]
+		key := short(u.Parent()) + ":trial-decryption"
 		okD, badD := allocatedIn(c, dst, a.loopFn)
 		okS, badS := allocatedIn(c, src, a.loopFn)
-		c.CheckAt(rule, key+":plaintext-buffer-owned-by-this-loop", sc, okD, "the buffer trial decryption writes into is not allocated by this listener loop (e.g. a field shared by all listeners of the handler): concurrent loops overwrite each other's plaintext between decryption and send ("+valsStr(p, badD)+")")
-		c.CheckAt(rule, key+":ciphertext-buffer-owned-by-this-loop", sc, okS, "the receive buffer is not allocated by this listener loop: "+valsStr(p, badS))
+		c.CheckAt(rule, key+":plaintext-buffer-owned-by-this-loop", u, okD, "the buffer trial decryption writes into is not allocated by this listener loop (e.g. a field shared by all listeners of the handler): concurrent loops overwrite each other's plaintext between decryption and send ("+valsStr(p, badD)+")")
+		c.CheckAt(rule, key+":ciphertext-buffer-owned-by-this-loop", u, okS, "the receive buffer is not allocated by this listener loop: "+valsStr(p, badS))
 		distinct := true
-		do, so := p.Origins(dst, eng.Plain), p.Origins(src, eng.Plain)
+		do, so := p.Origins(dst, eng.Deep), p.Origins(src, eng.Deep)
 		for _, x := range do {
 			if cst, ok := x.(*ssa.Const); ok && cst.IsNil() {
 				distinct = false
@@ -398,258 +459,306 @@ func ruleBuffers(c *Ctx, a *udpAnchors, rule string) {
 				}
 			}
 		}
-		c.CheckAt(rule, key+":separate-plaintext-and-ciphertext", sc, distinct && len(do) > 0, "trial decryption decrypts in place (dst is nil or aliases src): a failed AEAD open clears its output, so every key after the first wrong one sees corrupted ciphertext")
+		c.CheckAt(rule, key+":separate-plaintext-and-ciphertext", u, distinct && len(do) > 0, "trial decryption decrypts in place (dst is nil or aliases src): a failed AEAD open clears its output, so every key after the first wrong one sees corrupted ciphertext")
 	}
-	// inside the search function the buffers are passed to Unpack unchanged
-	for _, sl := range findSearchLoops(c) {
-		if len(sl.fn.Params) < 3 {
-			continue
+	c.Floor(rule, "trial decryptions in the datagram region", n, 1)
+	nr := 0
+	for _, rs := range findReplySites(c, a) {
+		for _, call := range rs.reads {
+			nr++
+			okB, bad := allocatedIn(c, call.Call.Args[1], rs.rf)
+			c.CheckAt(rule, short(call.Parent())+":reply-buffer-owned-by-this-association", call, okB, "the buffer replies are read into and encrypted in is not allocated by this association's goroutine (e.g. one buffer for the whole table): concurrent associations send each other's replies ("+valsStr(p, bad)+")")
 		}
-		u := sl.unpack
-		isP := func(v ssa.Value) bool { _, ok := v.(*ssa.Parameter); return ok }
-		if _, isSlice := p.Resolve(u.Call.Args[1]).(*ssa.Slice); isSlice {
-			continue // TCP form: prefix of first bytes
-		}
-		okA, _ := p.AllFrom(u.Call.Args[0], eng.Plain, isP)
-		okB, _ := p.AllFrom(u.Call.Args[1], eng.Plain, isP)
-		same := p.Resolve(u.Call.Args[0]) == p.Resolve(u.Call.Args[1])
-		c.CheckAt(rule, short(sl.fn)+":unpack-uses-caller-buffers", u, okA && okB && !same, "the search function does not pass its dst and src parameters (distinct) to Unpack")
 	}
-	// reply loops: the packet buffer is allocated per goroutine
+	c.Floor(rule, "reply reads", nr, 1)
+}
+
+// replySites collects, over a reply-loop region, the read, pack, parse, copy and write calls.
+type replySites struct {
+	rf     *ssa.Function
+	fns    []*ssa.Function
+	reads  []*ssa.Call
+	writes []*ssa.Call
+	parses []*ssa.Call
+	packs  []*ssa.Call
+	copies []*ssa.Call
+}
+
+func findReplySites(c *Ctx, a *udpAnchors) []replySites {
+	var out []replySites
 	for _, rf := range a.replyFns {
-		for _, g := range eng.Family(rf) {
-			for _, cl := range eng.Calls(g) {
-				call, ok := cl.(*ssa.Call)
-				if !ok || eng.CalleeName(&call.Call) != "(*service.natconn).ReadFrom" {
-					continue
+		rs := replySites{rf: rf}
+		reg := c.NewRegion(rf, 3, a.m.stopFn(c))
+		seen := map[*ssa.Function]bool{}
+		for _, g := range append(eng.Family(rf), reg.Fns...) {
+			if seen[g] {
+				continue
+			}
+			seen[g] = true
+			rs.fns = append(rs.fns, g)
+			for _, h := range eng.Family(g) {
+				if !seen[h] {
+					seen[h] = true
+					rs.fns = append(rs.fns, h)
 				}
-				okB, bad := allocatedIn(c, call.Call.Args[1], rf)
-				c.CheckAt(rule, short(g)+":reply-buffer-owned-by-this-association", call, okB, "the buffer replies are read into and encrypted in is not allocated by this association's goroutine (e.g. one buffer for the whole table): concurrent associations send each other's replies ("+valsStr(p, bad)+")")
 			}
 		}
+		for _, g := range rs.fns {
+			for _, cl := range eng.Calls(g) {
+				call, ok := cl.(*ssa.Call)
+				if !ok {
+					continue
+				}
+				n := eng.CalleeName(&call.Call)
+				switch {
+				case callTo(c, call, a.m.connRead):
+					rs.reads = append(rs.reads, call)
+				case n == "(net.PacketConn).WriteTo":
+					rs.writes = append(rs.writes, call)
+				case n == "ss2/socks.ParseAddr":
+					rs.parses = append(rs.parses, call)
+				case n == "sdk/shadowsocks.Pack":
+					rs.packs = append(rs.packs, call)
+				case n == "builtin.copy":
+					rs.copies = append(rs.copies, call)
+				}
+			}
+		}
+		out = append(out, rs)
 	}
+	return out
+}
+
+// rootParam: v derives only from parameters of the reply-loop root function.
+func rootParam(c *Ctx, v ssa.Value, rf *ssa.Function, typ string) bool {
+	g, _ := c.P.AllFrom(v, deepF, func(x ssa.Value) bool {
+		pa, isP := baseRoot(x).(*ssa.Parameter)
+		return isP && eng.Root(pa.Parent()) == rf && (typ == "" || pa.Type().String() == typ)
+	})
+	return g
 }
 
 // C03.REPLYADDR
 func ruleReplyAddr(c *Ctx, a *udpAnchors) {
 	p := c.P
 	n := 0
-	for _, rf := range a.replyFns {
-		for _, g := range eng.Family(rf) {
-			var rd, wr, parse *ssa.Call
-			for _, cl := range eng.Calls(g) {
-				call, ok := cl.(*ssa.Call)
-				if !ok {
-					continue
+	for _, rs := range findReplySites(c, a) {
+		if len(rs.reads) == 0 {
+			continue
+		}
+		n++
+		key := short(rs.rf)
+		if len(rs.parses) == 0 {
+			c.CheckAt("REPLYADDR", key+":sender-address-encoded-per-reply", rs.reads[0], false, "the reply path does not encode the sender address of each reply with socks.ParseAddr(raddr.String()) (e.g. it reuses a cached encoding): replies can carry another sender's address")
+		}
+		for _, parse := range rs.parses {
+			all, _ := p.AllFrom(parse.Call.Args[0], eng.OriginOpts{ThroughConvert: true, Interproc: true, ThroughCalls: stringOf}, func(v ssa.Value) bool { return inCalls(v, rs.reads, 1) })
+			c.CheckAt("REPLYADDR", key+":sender-address-is-this-reply's-source", parse, all, "the address packed into the reply is not the source address returned by this iteration's read from the target")
+			copied := false
+			for _, cp := range rs.copies {
+				if gd, _ := p.AllFrom(cp.Call.Args[1], deepF, func(v ssa.Value) bool { return v == ssa.Value(parse) }); gd {
+					copied = true
 				}
-				switch eng.CalleeName(&call.Call) {
-				case "(*service.natconn).ReadFrom":
-					rd = call
-				case "(net.PacketConn).WriteTo":
-					wr = call
-				case "ss2/socks.ParseAddr":
-					parse = call
-				}
 			}
-			if rd == nil {
-				continue
-			}
-			n++
-			key := short(g)
-			if parse == nil {
-				c.CheckAt("REPLYADDR", key+":sender-address-encoded-per-reply", rd, false, "the reply loop does not encode the sender address of each reply with socks.ParseAddr(raddr.String()) (e.g. it reuses a cached encoding): replies can carry another sender's address")
-			} else {
-				okSrc := p.AnyFrom(parse.Call.Args[0], eng.OriginOpts{ThroughCalls: func(cc *ssa.Call) []ssa.Value {
-					if eng.MethodName(&cc.Call) == "String" {
-						return []ssa.Value{eng.Receiver(&cc.Call)}
-					}
-					return nil
-				}}, func(v ssa.Value) bool { return eng.ResultOf(v, rd, 1) })
-				all, _ := p.AllFrom(parse.Call.Args[0], eng.OriginOpts{ThroughCalls: func(cc *ssa.Call) []ssa.Value {
-					if eng.MethodName(&cc.Call) == "String" {
-						return []ssa.Value{eng.Receiver(&cc.Call)}
-					}
-					return nil
-				}}, func(v ssa.Value) bool { return eng.ResultOf(v, rd, 1) })
-				c.CheckAt("REPLYADDR", key+":sender-address-is-this-reply's-source", parse, okSrc && all, "the address packed into the reply is not the source address returned by this iteration's ReadFrom")
-				// the parsed address is what is copied in front of the body
-				copied := false
-				for _, cl := range eng.Calls(g) {
-					if call, ok := cl.(*ssa.Call); ok {
-						if bi, ok := call.Call.Value.(*ssa.Builtin); ok && bi.Name() == "copy" {
-							if gd, _ := p.AllFrom(call.Call.Args[1], eng.OriginOpts{ThroughConvert: true}, func(v ssa.Value) bool { return v == ssa.Value(parse) }); gd {
-								copied = true
-							}
-						}
-					}
-				}
-				c.CheckAt("REPLYADDR", key+":encoded-address-written-into-packet", parse, copied, "the encoded sender address is not what is copied into the packet header")
-			}
-			if wr == nil {
-				c.CheckAt("REPLYADDR", key+":reply-sent-to-client", rd, false, "the reply loop never writes to the client connection")
-				continue
-			}
-			okDst, bad := p.AllFrom(eng.Arg(&wr.Call, 1), eng.Plain, func(v ssa.Value) bool {
-				_, isP := baseRoot(v).(*ssa.Parameter)
-				return isP
-			})
-			c.CheckAt("REPLYADDR", key+":reply-goes-to-the-association's-client", wr, okDst, "the reply is written to an address other than the association's own client address parameter: "+valsStr(p, bad))
-			// what is sent is the result of Pack
-			okBuf := p.AnyFrom(eng.Arg(&wr.Call, 0), eng.Plain, func(v ssa.Value) bool {
-				cc, idx, ok := eng.AsResult(v)
-				return ok && idx == 0 && eng.CalleeName(&cc.Call) == "sdk/shadowsocks.Pack"
-			})
+			c.CheckAt("REPLYADDR", key+":encoded-address-written-into-packet", parse, copied, "the encoded sender address is not what is copied into the packet header")
+		}
+		if len(rs.writes) == 0 {
+			c.CheckAt("REPLYADDR", key+":reply-sent-to-client", rs.reads[0], false, "the reply path never writes to the client connection")
+			continue
+		}
+		for _, wr := range rs.writes {
+			c.CheckAt("REPLYADDR", key+":reply-goes-to-the-association's-client", wr, rootParam(c, eng.Arg(&wr.Call, 1), rs.rf, "net.Addr"), "the reply is written to an address other than the association's own client address parameter")
+			okBuf, _ := p.AllFrom(eng.Arg(&wr.Call, 0), deepF, func(v ssa.Value) bool { return inCalls(v, rs.packs, 0) })
 			c.CheckAt("REPLYADDR", key+":sends-the-packed-buffer", wr, okBuf, "what is written to the client is not the buffer returned by Pack")
+			c.CheckAt("REPLYADDR", key+":reply-goes-out-through-the-association's-listener", wr, rootParam(c, eng.Receiver(&wr.Call), rs.rf, "net.PacketConn"), "the reply is written through a connection other than the one the association was created with")
 		}
 	}
-	c.Floor("REPLYADDR", "reply loop bodies", n, 1)
+	c.Floor("REPLYADDR", "reply loops", n, 1)
 }
 
 // C04.NATKEY
 func ruleNatKey(c *Ctx, a *udpAnchors) {
 	p := c.P
-	isAddrString := func(v ssa.Value) (ssa.Value, bool) {
-		call, ok := p.Resolve(v).(*ssa.Call)
-		if !ok || eng.CalleeName(&call.Call) != "(net.Addr).String" {
-			return nil, false
-		}
-		os := p.Origins(call.Call.Value, eng.Plain)
-		if len(os) != 1 {
-			return nil, false
-		}
-		return os[0], true
+	m := a.m
+	// addrOf: v == X.String() on a net.Addr → the single origin of X
+	addrOf := func(v ssa.Value) (ssa.Value, bool) {
+		var found ssa.Value
+		ok, _ := p.AllFrom(v, deepF, func(x ssa.Value) bool {
+			call, isC := x.(*ssa.Call)
+			if !isC || eng.CalleeName(&call.Call) != "(net.Addr).String" {
+				return false
+			}
+			os := p.Origins(call.Call.Value, eng.Plain)
+			if len(os) != 1 {
+				return false
+			}
+			if found != nil && found != baseRoot(os[0]) {
+				return false
+			}
+			found = baseRoot(os[0])
+			return true
+		})
+		return found, ok && found != nil
 	}
-	if a.get != nil {
-		x, ok := isAddrString(eng.Arg(&a.get.Call, 0))
-		fromRead := ok && a.readFrom != nil && eng.ResultOf(x, a.readFrom, 1)
-		c.CheckAt("NATKEY", short(a.dg)+":lookup-key-is-full-source-address", a.get, fromRead, "the association lookup key is not String() of the whole source address returned by this datagram's ReadFrom (e.g. IP only, or another address): different clients would share — or one client would split — an association")
-	}
-	for i, ad := range a.adds {
-		okA := false
-		for _, o := range p.Origins(ad.Call.Args[1], eng.Plain) {
-			if a.readFrom != nil && eng.ResultOf(o, a.readFrom, 1) {
-				okA = true
+	fromRead := func(x ssa.Value) bool {
+		if a.readFrom == nil || x == nil {
+			return false
+		}
+		if eng.ResultOf(x, a.readFrom, 1) {
+			return true
+		}
+		for _, o := range p.Origins(x, deepF) {
+			if eng.ResultOf(o, a.readFrom, 1) {
+				return true
 			}
 		}
-		c.CheckAt("NATKEY", fmt.Sprintf("%s:add#%d:client-address-is-the-datagram-source", short(a.dg), i), ad, okA, "the association is created for an address other than this datagram's source")
-		okC, _ := p.AllFrom(ad.Call.Args[2], eng.Plain, func(v ssa.Value) bool { _, isP := baseRoot(v).(*ssa.Parameter); return isP })
-		c.CheckAt("NATKEY", fmt.Sprintf("%s:add#%d:replies-go-out-through-the-listening-socket", short(a.dg), i), ad, okC, "the association's client-facing connection is not the listener the datagram arrived on")
+		return false
 	}
-	add := p.Fn("(*service.natmap).Add")
-	if add == nil {
-		c.Undecided("NATKEY", "anchor:natmap.Add", "-", "natmap.Add not found")
-		return
+	for i, g := range a.gets {
+		x, ok := addrOf(eng.Arg(&g.Call, 0))
+		c.CheckAt("NATKEY", fmt.Sprintf("lookup#%d:key-is-full-source-address", i), g, ok && fromRead(x), "the association lookup key is not String() of the whole source address returned by this datagram's ReadFrom (e.g. IP only, or another address): different clients would share — or one client would split — an association")
+	}
+	c.Floor("NATKEY", "table lookups in the datagram region", len(a.gets), 1)
+	for i, ad := range a.adds {
+		okA, okC := false, false
+		for _, ar := range ad.Call.Args {
+			switch ar.Type().String() {
+			case "net.Addr":
+				for _, o := range p.Origins(ar, deepF) {
+					if fromRead(baseRoot(o)) || fromRead(o) {
+						okA = true
+					}
+				}
+			case "net.PacketConn":
+				// the listener connection: a parameter of the loop function (not the freshly created socket)
+				if g, _ := p.AllFrom(ar, deepF, func(v ssa.Value) bool { _, isP := baseRoot(v).(*ssa.Parameter); return isP }); g {
+					okC = true
+				}
+			}
+		}
+		c.CheckAt("NATKEY", fmt.Sprintf("add#%d:client-address-is-the-datagram-source", i), ad, okA, "the association is created for an address other than this datagram's source")
+		c.CheckAt("NATKEY", fmt.Sprintf("add#%d:replies-go-out-through-the-listening-socket", i), ad, okC, "the association's client-facing connection is not the listener the datagram arrived on")
 	}
 	n := 0
-	for _, g := range eng.Family(add) {
+	seen := map[*ssa.Function]bool{}
+	var fns []*ssa.Function
+	for _, g := range append(eng.Family(m.add), m.assocGo...) {
+		if !seen[g] {
+			seen[g] = true
+			fns = append(fns, g)
+		}
+	}
+	for _, g := range fns {
 		for _, cl := range eng.Calls(g) {
 			call, ok := cl.(*ssa.Call)
-			if !ok {
-				continue
-			}
-			nm := eng.CalleeName(&call.Call)
-			if nm != "(*service.natmap).set" && nm != "(*service.natmap).del" {
+			if !ok || !(callTo(c, call, m.set) || callTo(c, call, m.del)) {
 				continue
 			}
 			n++
-			x, ok := isAddrString(eng.Arg(&call.Call, 0))
+			x, ok := addrOf(eng.Arg(&call.Call, 0))
 			good := false
 			if ok {
-				if pa, isP := baseRoot(x).(*ssa.Parameter); isP && eng.IsParam(pa, add, 1) {
+				if pa, isP := x.(*ssa.Parameter); isP && (eng.Root(pa.Parent()) == m.add || pa.Parent() == g) && pa.Type().String() == "net.Addr" {
 					good = true
 				}
 			}
-			c.CheckAt("NATKEY", short(g)+":"+nm+":key-is-String()-of-Add's-client-address", call, good, "the table key used by "+nm+" is not String() of Add's client address parameter")
+			c.CheckAt("NATKEY", short(g)+":table-key-is-String()-of-Add's-client-address", call, good, "the table key used for insert/delete is not String() of Add's client address parameter")
 		}
 	}
-	c.Floor("NATKEY", "set/del calls in Add", n, 2)
+	c.Floor("NATKEY", "insert/delete calls of an association", n, 2)
 }
 
 // C04.OWNSOCK
 func ruleOwnSock(c *Ctx, a *udpAnchors) {
 	p := c.P
+	m := a.m
 	for i, ls := range a.listens {
-		// result 0 flows only into natmap.Add
-		var sock ssa.Value
-		for _, r := range *ls.Referrers() {
-			if ex, ok := r.(*ssa.Extract); ok && ex.Index == 0 {
-				sock = ex
-			}
-		}
-		key := fmt.Sprintf("%s:outbound-socket#%d", short(a.dg), i)
-		if sock == nil {
-			c.CheckAt("OWNSOCK", key, ls, false, "the created socket is discarded")
-			continue
-		}
-		uses, onlyAdd := 0, true
-		for _, r := range *sock.Referrers() {
-			switch u := r.(type) {
-			case *ssa.DebugRef:
-			case *ssa.Call:
-				uses++
-				if eng.CalleeName(&u.Call) != "(*service.natmap).Add" {
-					onlyAdd = false
+		key := fmt.Sprintf("outbound-socket#%d", i)
+		reachesAdd := false
+		for _, ad := range a.adds {
+			for _, ar := range ad.Call.Args {
+				if p.AnyFrom(ar, deepF, func(v ssa.Value) bool { return eng.ResultOf(v, ls, 0) }) {
+					reachesAdd = true
 				}
-			default:
-				uses++
-				onlyAdd = false
 			}
 		}
-		c.CheckAt("OWNSOCK", key+":handed-only-to-one-association", ls, uses == 1 && onlyAdd, "the outbound socket created for this client is stored or used elsewhere than as the argument of one natmap.Add (it could be shared between associations)")
-		// created only when no association exists
-		c.CheckAt("OWNSOCK", key+":created-only-when-absent", ls, len(a.absent) > 0 && eng.Cut(a.dg, ls.Block(), a.absent), "a new outbound socket is created although an association exists for this client address")
+		c.CheckAt("OWNSOCK", key+":handed-to-the-association", ls, reachesAdd, "the outbound socket created for this client is not handed to natmap.Add")
+		stored := false
+		a.R.Instrs(func(f *ssa.Function, ins ssa.Instruction) {
+			switch st := ins.(type) {
+			case *ssa.Store:
+				_, isFA := st.Addr.(*ssa.FieldAddr)
+				_, isG := st.Addr.(*ssa.Global)
+				if (isFA || isG) && p.AnyFrom(st.Val, deepF, func(v ssa.Value) bool { return eng.ResultOf(v, ls, 0) }) {
+					stored = true
+				}
+			case *ssa.MapUpdate:
+				if p.AnyFrom(st.Value, deepF, func(v ssa.Value) bool { return eng.ResultOf(v, ls, 0) }) {
+					stored = true
+				}
+			}
+		})
+		c.CheckAt("OWNSOCK", key+":not-stored-elsewhere", ls, !stored, "the outbound socket is also stored in a field, global or map by the datagram code: it could be shared between associations")
+		c.CheckAt("OWNSOCK", key+":created-only-when-absent", ls, a.R.CutDeep(ls, a.gAbsent), "a new outbound socket is created although an association exists for this client address")
 	}
 	for i, ad := range a.adds {
-		c.CheckAt("OWNSOCK", fmt.Sprintf("%s:add#%d:only-when-absent", short(a.dg), i), ad, len(a.absent) > 0 && eng.Cut(a.dg, ad.Block(), a.absent), "an association is created although one already exists for this client address: the live entry is overwritten, the client gets a second source address and the old goroutine later deletes the new entry")
-	}
-	add := p.Fn("(*service.natmap).Add")
-	if add == nil {
-		return
+		c.CheckAt("OWNSOCK", fmt.Sprintf("add#%d:only-when-absent", i), ad, a.R.CutDeep(ad, a.gAbsent), "an association is created although one already exists for this client address: the live entry is overwritten, the client gets a second source address and the old goroutine later deletes the new entry")
 	}
 	var gos []*ssa.Go
-	for _, cl := range eng.Calls(add) {
+	for _, cl := range eng.Calls(m.add) {
 		if g, ok := cl.(*ssa.Go); ok {
 			gos = append(gos, g)
 		}
 	}
-	c.Check("OWNSOCK", short(add)+":one-goroutine-per-association", p.Pos(add.Pos()), len(gos) == 1 && eng.InnermostLoop(eng.Loops(add), gos[0].Block()) == nil, fmt.Sprintf("Add starts %d goroutines (expected exactly one reply goroutine per association)", len(gos)))
-	// the entry stored wraps Add's socket parameter
-	for _, cl := range eng.Calls(add) {
-		if call, ok := cl.(*ssa.Call); ok && eng.CalleeName(&call.Call) == "(*service.natmap).set" {
-			okS, _ := p.AllFrom(call.Call.Args[2], eng.Plain, func(v ssa.Value) bool { return eng.IsParam(v, add, 4) })
-			c.CheckAt("OWNSOCK", short(add)+":entry-wraps-the-socket-parameter", call, okS, "the association entry does not wrap the outbound socket passed to Add")
+	c.Check("OWNSOCK", short(m.add)+":one-goroutine-per-association", p.Pos(m.add.Pos()), len(gos) == 1 && eng.InnermostLoop(eng.Loops(m.add), gos[0].Block()) == nil, fmt.Sprintf("Add starts %d goroutines (expected exactly one reply goroutine per association)", len(gos)))
+	for _, st := range p.FieldStores(m.connT, m.connField) {
+		if !st.Fresh || st.Val == nil {
+			continue
 		}
+		okS, _ := p.AllFrom(st.Val, deepF, func(v ssa.Value) bool {
+			pa, isP := v.(*ssa.Parameter)
+			return isP && pa.Parent() == m.add && pa.Type().String() == "net.PacketConn"
+		})
+		c.CheckAt("OWNSOCK", "entry-wraps-Add's-socket:"+short(st.Fn), st.Ins, okS, "the association entry does not wrap the outbound socket passed to Add")
 	}
-	// the reply goroutine serves exactly (client address, listener, entry) of this Add
-	for _, g := range gos {
-		for _, lit := range p.Callees(g) {
-			for _, cl := range eng.Calls(lit) {
-				call, ok := cl.(*ssa.Call)
-				if !ok {
+	for _, lit := range m.assocGo {
+		reg := c.NewRegion(lit, 2, m.stopFn(c))
+		for _, cl := range reg.Calls() {
+			call, ok := cl.(*ssa.Call)
+			if !ok {
+				continue
+			}
+			for _, rf := range a.replyFns {
+				if !callTo(c, call, rf) {
 					continue
 				}
-				for _, rf := range a.replyFns {
-					for _, callee := range repoCallees(c, call) {
-						if callee != rf {
-							continue
-						}
-						okAddr, _ := p.AllFrom(call.Call.Args[0], eng.Plain, func(v ssa.Value) bool { r := baseRoot(v); return eng.IsParam(r, add, 1) })
-						okConn, _ := p.AllFrom(call.Call.Args[1], eng.Plain, func(v ssa.Value) bool { r := baseRoot(v); return eng.IsParam(r, add, 2) })
-						okEnt, _ := p.AllFrom(call.Call.Args[2], eng.Plain, func(v ssa.Value) bool {
-							cc, _, ok := eng.AsResult(baseRoot(v))
-							return ok && eng.CalleeName(&cc.Call) == "(*service.natmap).set"
+				okAll := true
+				for _, ar := range call.Call.Args {
+					ts := ar.Type().String()
+					switch {
+					case ts == "net.Addr" || ts == "net.PacketConn":
+						g, _ := p.AllFrom(ar, deepF, func(v ssa.Value) bool {
+							pa, isP := baseRoot(v).(*ssa.Parameter)
+							return isP && pa.Parent() == m.add && pa.Type().String() == ts
 						})
-						c.CheckAt("OWNSOCK", short(lit)+":reply-loop-serves-this-association", call, okAddr && okConn && okEnt, "the reply goroutine is not started with (Add's client address, Add's listener connection, the entry just stored)")
+						if !g {
+							okAll = false
+						}
+					case eng.TypeName(ar.Type()) == m.connT:
+						g, _ := p.AllFrom(ar, deepF, func(v ssa.Value) bool {
+							cc, isC := baseRoot(v).(*ssa.Call)
+							return isC && callTo(c, cc, m.set)
+						})
+						if !g {
+							okAll = false
+						}
 					}
 				}
+				c.CheckAt("OWNSOCK", short(lit)+":reply-loop-serves-this-association", call, okAll, "the reply goroutine is not started with (Add's client address, Add's listener connection, the entry just stored)")
 			}
 		}
 	}
 }
-
-// isBoolFlagLoad etc. live in c16.go
-var _ = token.ADD
-var _ = strings.Contains
 
 // isIPValidatorCall: a dynamic call of a func(net.IP) error value.
 func isIPValidatorCall(cl ssa.CallInstruction) bool {
